@@ -5,7 +5,8 @@
      make the proof stage fail (the regenerated definition no longer equals the model) IN ITS OWN GROUP ONLY (every
      other group's module still builds: a check of another property is not disturbed) — and behaviour-preserving
      rewrites, for which the outcome is reported (still proved / Untranslatable / proof no longer checks).
-run: cd /root/wt/tr && PYTHONPATH=/repo:harness /venv/bin/python -W ignore harness/tr_selftest.py [--no-mutations]"""
+run: cd /root/wt/tr && PYTHONPATH=/repo:harness /venv/bin/python -W ignore harness/tr_selftest.py [--no-mutations] [--groups=A,B]
+     (`--groups`: only the mutations / rewrites that concern one of these groups; `--no-cpython`: skip the CPython comparison)"""
 import json
 import os
 import re
@@ -99,6 +100,99 @@ MUTATIONS = [
     ("tlexport/main.py", "        if len(packet_payload) < 6:", "        if len(packet_payload) < 5:", "handle_quic_packet: 5-byte long header read"),
     ("tlexport/output_builder.py", "        self.default_port = 8080", "        self.default_port = 8081", "OutputBuilder: fallback port"),
     ("tlexport/quic/quic_output_builder.py", "        if keep_original_ports is False:", "        if keep_original_ports is True:", "QUICOutputbuilder: flag inverted"),
+    # group QuicTls: quic_tls_parser.py
+    ("tlexport/quic/quic_tls_parser.py", "            if p_type == 0x2ab2:", "            if p_type == 0x2ab3:", "get_quic_transport_parameters: grease_quic_bit under the wrong id"),
+    ("tlexport/quic/quic_tls_parser.py", "            extension_body = extension_body[index + parameter_length:]", "            extension_body = extension_body[index + parameter_length + 1:]", "get_quic_transport_parameters: a byte skipped after each parameter"),
+    ("tlexport/quic/quic_tls_parser.py", "            if len(record) < 4 + extension_length:\n                break", "            if len(record) < 2 + extension_length:\n                break", "get_extensions: incomplete extension collected"),
+    ("tlexport/quic/quic_tls_parser.py", "                    if e_length != 2:\n                        continue", "                    if e_length != 3:\n                        continue", "get_extensions: supported_versions of 3 bytes"),
+    ("tlexport/quic/quic_tls_parser.py", "                    self.alpn = e_body[3:3 + alpn_length]", "                    self.alpn = e_body[2:3 + alpn_length]", "get_extensions: ALPN includes its length byte"),
+    ("tlexport/quic/quic_tls_parser.py", "        if len(record[2:]) != int.from_bytes(record[:2], 'big', signed=False):\n            return", "        if len(record[2:]) < int.from_bytes(record[:2], 'big', signed=False):\n            return", "get_extensions: trailing bytes accepted"),
+    ("tlexport/quic/quic_tls_parser.py", "        self.client_random = record[2:34]", "        self.client_random = record[2:33]", "handle_client_hello: 31-byte client random"),
+    ("tlexport/quic/quic_tls_parser.py", "        self.ciphersuite = _ciphersuites[0:2]  # For early data", "        self.ciphersuite = _ciphersuites[2:4]  # For early data", "handle_client_hello: second offered suite taken"),
+    ("tlexport/quic/quic_tls_parser.py", "        index += 1 + compression_methods_length", "        index += compression_methods_length", "handle_client_hello: compression length byte not skipped"),
+    ("tlexport/quic/quic_tls_parser.py", "        record = record[39 + session_id_length:]", "        record = record[38 + session_id_length:]", "handle_server_hello: cipher suite read one byte early"),
+    ("tlexport/quic/quic_tls_parser.py", "        self.get_extensions(record[4:])", "        self.get_extensions(record[3:])", "handle_encrypted_extensions: message header not stripped"),
+    ("tlexport/quic/quic_tls_parser.py", "            case 8:\n                self.handle_encrypted_extensions(record)", "            case 11:\n                self.handle_encrypted_extensions(record)", "handle_record: EncryptedExtensions under the Certificate type"),
+    # group Decrypt: decryptor.py
+    ("tlexport/decryptor.py", "    b_padded = bytes(diff) + b", "    b_padded = b + bytes(diff)", "Dec.byte_xor: zero padding at the wrong end"),
+    ("tlexport/decryptor.py", "        xor_out.append(a[i] ^ b_padded[i])", "        xor_out.append(a[i] | b_padded[i])", "Dec.byte_xor: or instead of xor"),
+    ("tlexport/decryptor.py", "        if self.bulk_alg in [AESCCM, AESGCM]:", "        if self.bulk_alg in [AESGCM]:", "get_cipher_type: AESCCM not an AEAD"),
+    ("tlexport/decryptor.py", "            self.server_seq = 0", "            self.server_seq = 1", "update_keys: sequence number restarts at 1"),
+    ("tlexport/decryptor.py", "            self.client_iv = self.client_application_iv", "            self.client_iv = self.client_handshake_iv", "update_keys: client keeps the handshake IV"),
+    ("tlexport/decryptor.py", "        associated_data = int.to_bytes(record.record_type, 1, 'big') + record.record_version + record.record_length", "        associated_data = int.to_bytes(record.record_type, 1, 'big') + record.record_version", "decrypt_tls13_aead: record length missing from the associated data", 0),
+    ("tlexport/decryptor.py", "        nonce = byte_xor(iv, int(seq).to_bytes(8, 'big'))", "        nonce = byte_xor(iv, int(seq).to_bytes(4, 'big'))", "decrypt_tls13_stream_cipher: 4-byte sequence number in the nonce", 1),
+    ("tlexport/decryptor.py", "        ciphertext_len = len(ciphertext) - 8 - self.tag_length", "        ciphertext_len = len(ciphertext) - 8", "decrypt_tls12_aead: tag counted into the plaintext length"),
+    ("tlexport/decryptor.py", "        nonce = iv + record.binary[:8]", "        nonce = record.binary[:8] + iv", "decrypt_tls12_aead: explicit nonce before the salt"),
+    ("tlexport/decryptor.py", "        ciphertext = record.binary[8:]", "        ciphertext = record.binary[7:]", "decrypt_tls12_aead: ciphertext starts inside the explicit nonce"),
+    ("tlexport/decryptor.py", "                len(record.binary) - 16).to_bytes(2, 'big')", "                len(record.binary) - 15).to_bytes(2, 'big')", "decrypt_tls12_chacha20: plaintext length off by one in the associated data"),
+    ("tlexport/decryptor.py", "            self.server_seq += 1", "            self.server_seq += 2", "decrypt_tls12_aead: server sequence number advances by 2", 2),
+    ("tlexport/decryptor.py", "        elif self.tls_version == TlsVersion.TLS12 and self.bulk_alg == ChaCha20Poly1305:", "        elif self.tls_version == TlsVersion.TLS11 and self.bulk_alg == ChaCha20Poly1305:", "Decryptor.decrypt: ChaCha20 routine chosen for TLS 1.1"),
+    ("tlexport/decryptor.py", "        elif self.cipher_type == EncryptionType.AEAD:\n            return self.decrypt_tls12_aead(record, isserver)", "        elif self.cipher_type == EncryptionType.Unknown:\n            return self.decrypt_tls12_aead(record, isserver)", "Decryptor.decrypt: AEAD records not dispatched"),
+    ("tlexport/decryptor.py", "            logging.info(f\"decrypting as Server: Key: 0x{key.hex()}, \"", "            logging.info(f\"decrypting as Server: Key: 0x{key}, \"", "decrypt_tls13_aead: the log line no longer fails on a missing key", 0),
+    # group Builders: the output builders
+    ("tlexport/quic/quic_output_builder.py", "            if frame.frame_type in [0x08, 0x09, 0x0a, 0x0b, 0x0c, 0x0d, 0x0e, 0x0f]:", "            if frame.frame_type in [0x08, 0x09, 0x0a, 0x0b, 0x0c, 0x0d, 0x0e]:", "QUICOutputbuilder.build: STREAM type 0x0f not exported"),
+    ("tlexport/quic/quic_output_builder.py", "                if frame.frame_type == 0x06:\n                    data = frame.crypto", "                if frame.frame_type == 0x07:\n                    data = frame.crypto", "QUICOutputbuilder.build: CRYPTO meta-data under the wrong type"),
+    ("tlexport/quic/quic_output_builder.py", "            if frame.src_packet.ts == ts and frame.src_packet.isserver == isserver:", "            if frame.src_packet.ts == ts:", "QUICOutputbuilder.build: frames of both directions in one datagram"),
+    ("tlexport/quic/quic_output_builder.py", "                self.out.append((packet, ts))\n\n                ts = frame.src_packet.ts", "                self.out.append((packet, frame.src_packet.ts))\n\n                ts = frame.src_packet.ts", "QUICOutputbuilder.build: closed datagram stamped with the next one's time"),
+    ("tlexport/quic/quic_output_builder.py", "                packets = bytearray()\n                packets.extend(data)", "                packets = bytearray()", "QUICOutputbuilder.build: first frame of a new datagram lost"),
+    ("tlexport/quic/quic_output_builder.py", "        if ts is None:\n            # no frame carried data that is exported\n            return self.out", "        if not ts:\n            # no frame carried data that is exported\n            return self.out", "QUICOutputbuilder.build: capture time 0 taken for no data"),
+    ("tlexport/output_builder.py", "        if last_len < record_len:", "        if last_len <= record_len:", "build_server_packet: an empty last part", 0),
+    ("tlexport/output_builder.py", "            parts.append(decrypted[i * part_len: i * part_len + part_len])", "            parts.append(decrypted[i * part_len: i * part_len + part_len + 1])", "build_client_packet: parts overlap by one byte", 1),
+    ("tlexport/output_builder.py", "                self.server_seq += len(parts[i])", "                self.server_seq += len(parts[i]) + 1", "build_server_packet: sequence number off by one per part", 0),
+    ("tlexport/output_builder.py", "                    dport=self.server_port, sport=self.client_port, flags='A', seq=self.client_seq, ack=self.server_seq)", "                    dport=self.server_port, sport=self.client_port, flags='A', seq=self.client_seq, ack=self.client_seq)", "build_server_packet: ACK acknowledges the wrong number", 0),
+    ("tlexport/output_builder.py", "            self.out.append((packet_ack, ts[i]))", "            self.out.append((packet_ack, ts[0]))", "build_client_packet: ACKs all at the first carrier's time", 1),
+    ("tlexport/output_builder.py", "                dport=self.client_port, sport=self.server_port, flags='SA', seq=0, ack=1)", "                dport=self.client_port, sport=self.server_port, flags='SA', seq=0, ack=0)", "build_ack_handshake: SYN-ACK does not acknowledge the SYN", 0),
+    ("tlexport/output_builder.py", "                self.ts_zero = record[1].metadata[0].timestamp", "                self.ts_zero = record[1].metadata[-1].timestamp", "OutputBuilder.build: handshake at the last carrier's time"),
+    ("tlexport/output_builder.py", "            if record[2]:\n                self.build_server_packet(decrypted, ts)", "            if not record[2]:\n                self.build_server_packet(decrypted, ts)", "OutputBuilder.build: directions swapped"),
+    ("tlexport/output_builder.py", "                decrypted = b'123345'", "                decrypted = b'12345'", "OutputBuilder.build: other placeholder"),
+    # group KeySched: key_derivator.py, quic_key_generation.py
+    ("tlexport/key_derivator.py", "    seed = label + server_random + client_random\n\n    a0 = seed\n    secret_block", "    seed = label + client_random + server_random\n\n    a0 = seed\n    secret_block", "prf_tls_12: randoms swapped in the seed"),
+    ("tlexport/key_derivator.py", "    return secret_block[:length]", "    return secret_block[:length - 1]", "prf_tls_12: one byte short", 1),
+    ("tlexport/key_derivator.py", "    s1 = secret[:l_s1]", "    s1 = secret[:l_s1 - 1]", "prf_tls_10_11: first half one byte short"),
+    ("tlexport/key_derivator.py", "        h1 = hmac.HMAC(s2, hashes.SHA1())", "        h1 = hmac.HMAC(s2, hashes.MD5())", "prf_tls_10_11: A(i) of the SHA-1 half computed with MD5"),
+    ("tlexport/key_derivator.py", "            sha1.update(bytes(counter * sec_bits[counter - 1], 'utf-8') + secret + client_random + server_random)", "            sha1.update(bytes(counter * sec_bits[counter - 1], 'utf-8') + secret + server_random + client_random)", "prf_ssl_30: master-secret randoms in key-block order"),
+    ("tlexport/key_derivator.py", "        md5.update(secret + a)", "        md5.update(a + secret)", "prf_ssl_30: MD5 input order"),
+    ("tlexport/key_derivator.py", "    master_secret = (p1 + p2)[:48]", "    master_secret = (p1 + p2)[:32]", "gen_master_secret_tls_12: 32-byte master secret"),
+    ("tlexport/key_derivator.py", "    h.update(a2 + seed)\n    p2 = h.finalize()", "    h.update(a1 + seed)\n    p2 = h.finalize()", "gen_master_secret_tls_12: second block from A(1)"),
+    ("tlexport/key_derivator.py", "    if cipher_algo == ChaCha20Poly1305:\n        iv_length = 12", "    if cipher_algo == ChaCha20Poly1305:\n        iv_length = 8", "dev_tls_12_keys: ChaCha20 IV of 8 bytes"),
+    ("tlexport/key_derivator.py", "        \"server_write_key\": key_block[mac_length * 2 + key_length: mac_length * 2 + key_length * 2],", "        \"server_write_key\": key_block[mac_length * 2: mac_length * 2 + key_length],", "dev_tls_10_11_keys: server key = client key", 0),
+    ("tlexport/key_derivator.py", "    if use_aead:\n        mac_length = 0\n\n    key_block = prf_ssl_30(", "    if use_aead:\n        mac_length = 1\n\n    key_block = prf_ssl_30(", "dev_ssl_30_keys: AEAD flag leaves a 1-byte MAC key"),
+    ("tlexport/key_derivator.py", "    iv_label_len = b'\\x08'", "    iv_label_len = b'\\x09'", "dev_tls_13_keys: wrong label length in the IV info"),
+    ("tlexport/key_derivator.py", "    key_label = b'tls13 key'", "    key_label = b'tls13 kex'", "dev_tls_13_keys: wrong key label"),
+    ("tlexport/quic/quic_key_generation.py", "    lable_len = len(label) + 6", "    lable_len = len(label) + 5", "make_info: label length without the prefix's last byte"),
+    ("tlexport/quic/quic_key_generation.py", "0dede3def700a6db819381be6e269dcbf9bd2ed9", "0dede3def700a6db819381be6e269dcbf9bd2ed8", "dev_initial_keys: v2 salt off by one bit"),
+    ("tlexport/quic/quic_key_generation.py", "    client_initial = HKDFExpand(hash_fun, 32, info=make_info(b\"client in\", 32)).derive(initial_secret)", "    client_initial = HKDFExpand(hash_fun, 32, info=make_info(b\"server in\", 32)).derive(initial_secret)", "dev_initial_keys: client secret from the server label"),
+    ("tlexport/quic/quic_key_generation.py", "    server_n = decryptor_n.keys[4]", "    server_n = decryptor_n.keys[5]", "key_update: server secret taken from the client's"),
+    ("tlexport/quic/quic_key_generation.py", "        hp_info = make_info(b\"quic hp\", key_length)", "        hp_info = make_info(b\"quic hq\", key_length)", "dev_quic_keys: wrong header-protection label"),
+    ("tlexport/quic/quic_key_generation.py", "        \"client_application_sec\": client_application_secret,", "        \"client_application_sec\": server_application_secret,", "dev_quic_keys: client secret entry holds the server's"),
+    # group Reasm2: the framing part of extract_*_buf (the two functions are copies: the n-th occurrence of the text)
+    ("tlexport/session.py", "            packet_ranges.append((total_packet_len, total_packet_len + packet_len, i))", "            packet_ranges.append((total_packet_len, total_packet_len + packet_len + 1, i))", "extract_server_frame: packet ranges one byte too long", 0),
+    ("tlexport/session.py", "            if total_packet_len - index < 5:", "            if total_packet_len - index < 4:", "extract_client_frame: four trailing bytes taken for a record header", 1),
+    ("tlexport/session.py", "                    if index < packet_range[1] and index + record_len > packet_range[0]:", "                    if index <= packet_range[1] and index + record_len > packet_range[0]:", "extract_server_frame: a packet that ends where the record starts counted as a carrier", 0),
+    ("tlexport/session.py", "                binary = packet_data[index:index + record_len]", "                binary = packet_data[index:index + record_len - 1]", "extract_client_frame: record one byte short", 1),
+    ("tlexport/session.py", "            record_len = int.from_bytes(record_len, 'big') + 5", "            record_len = int.from_bytes(record_len, 'big') + 4", "extract_server_frame: need_data scan with 4-byte record headers", 0),
+    ("tlexport/session.py", "            self.client_packet_buffer.clear()", "            pass", "extract_client_frame: buffer kept after delivery"),
+    # group TlsSess2: the record handlers of session.py, whole
+    ("tlexport/session.py", "        if self.server_cipher_change and isserver and self.can_decrypt:", "        if self.server_cipher_change and isserver:", "handle_handshake_finished: decrypts although the session cannot decrypt"),
+    ("tlexport/session.py", "        if self.exp_meta and _plaintext != b\"\":", "        if _plaintext != b\"\":", "handle_handshake_finished: exports without the meta-data flag"),
+    ("tlexport/session.py", "        if self.server_cipher_change or self.client_cipher_change:", "        if self.server_cipher_change and self.client_cipher_change:", "handle_tls_handshake_record: encrypted handshake only after both ChangeCipherSpecs"),
+    ("tlexport/session.py", "                    logging.warning(f\"Could not handle ServerHello, session cannot be decrypted\")\n                    self.can_decrypt = False", "                    logging.warning(f\"Could not handle ServerHello, session cannot be decrypted\")\n                    pass", "handle_tls_handshake_record: a failed ServerHello leaves can_decrypt set"),
+    ("tlexport/session.py", "        index += session_id_length + 1", "        index += session_id_length", "handle_tls_server_hello: session id length byte not skipped"),
+    ("tlexport/session.py", "            extensions_index += extension_length + 4", "            extensions_index += extension_length + 2", "handle_tls_server_hello: extension header taken as 2 bytes"),
+    ("tlexport/session.py", "        if self.extensions.get(bytes.fromhex(\"002b\")) == bytearray.fromhex(\"0304\"):", "        if self.extensions.get(bytes.fromhex(\"002b\")) == bytearray.fromhex(\"0303\"):", "handle_tls_server_hello: supported_versions 0x0303 taken for TLS 1.3"),
+    ("tlexport/session.py", "        self.compression_method = record.binary[index + 2]", "        self.compression_method = record.binary[index + 3]", "handle_tls_server_hello: compression method read one byte late"),
+    ("tlexport/session.py", "            if len(buffer) < length + 4:", "            if len(buffer) < length:", "handle_decrypted_tls_13_handshake_record: incomplete message consumed"),
+    ("tlexport/session.py", "            if handshake_type == 20:", "            if handshake_type == 24:", "handle_decrypted_tls_13_handshake_record: keys updated on KeyUpdate instead of Finished"),
+    ("tlexport/session.py", "            self.handshake_13_buffer[isserver] = buffer\n            if handshake_type == 20:\n                self.decryptor.update_keys(isserver)\n", "            if handshake_type == 20:\n                self.decryptor.update_keys(isserver)\n            self.handshake_13_buffer[isserver] = buffer\n", "handle_decrypted_tls_13_handshake_record: buffer stored after update_keys (a raise loses the consumed message)"),
+    ("tlexport/session.py", "            plaintext = plaintext.rstrip(b'\\x00')", "            plaintext = plaintext.rstrip(b'\\x01')", "handle_tls_13_application_record: padding not stripped"),
+    ("tlexport/session.py", "            if subrecord_type == b'\\x17':", "            if subrecord_type == b'\\x18':", "handle_tls_13_application_record: application data under the wrong content type"),
+    ("tlexport/session.py", "        self.application_traffic.append((plaintext, record, isserver))", "        self.application_traffic.append((plaintext, record, not isserver))", "handle_tls_application_record: direction inverted"),
+    ("tlexport/session.py", "                if isserver:\n                    self.server_cipher_change = True\n                else:\n                    self.client_cipher_change = True", "                if isserver:\n                    self.client_cipher_change = True\n                else:\n                    self.server_cipher_change = True", "handle_tls_record: ChangeCipherSpec recorded for the other direction"),
+    ("tlexport/session.py", "                if self.can_decrypt and self.decryptor is not None:", "                if self.decryptor is not None:", "handle_tls_record: application data decrypted although can_decrypt is off"),
+    ("tlexport/session.py", "                        case TlsVersion.TLS12 | TlsVersion.TLS11 | TlsVersion.TLS10 | TlsVersion.SSL30:", "                        case TlsVersion.TLS12 | TlsVersion.TLS11 | TlsVersion.TLS10:", "handle_tls_record: SSL 3.0 application data not handled"),
+    ("tlexport/session.py", "                if len(record.binary) > 0:\n                    self.handle_alert(record.binary[0])", "                if len(record.binary) > 1:\n                    self.handle_alert(record.binary[0])", "handle_tls_record: one-byte alerts ignored"),
+    ("tlexport/session.py", "                    self.handle_tls_record(record, True)", "                    self.handle_tls_record(record, False)", "get_tls_records: server records handled as the client's"),
+    ("tlexport/tlsrecord.py", "        self.binary = binary[5:]", "        self.binary = binary[4:]", "TlsRecord: body starts inside the header"),
 ]
 
 # behaviour-preserving rewrites: (file, [(old, new)…], what)
@@ -127,6 +221,19 @@ REWRITES = [
     ("tlexport/session.py", [("        if alert_level == 0x1 and self.tls_version != TlsVersion.TLS13:\n            return\n        self.can_decrypt = False\n        self.client_hello_seen = False\n",
                               "        if not (alert_level == 0x1 and self.tls_version != TlsVersion.TLS13):\n            self.can_decrypt = False\n            self.client_hello_seen = False\n")],
      "handle_alert: early return turned into a guarded block"),
+    ("tlexport/key_derivator.py", [("        secret_block = secret_block + h.finalize()", "        secret_block += h.finalize()")], "prf_tls_12: `x = x + y` written `x += y`"),
+    ("tlexport/key_derivator.py", [("    if use_aead:\n        mac_length = 0\n\n    key_block = prf_tls_12(", "    if use_aead != 0:\n        mac_length = 0\n\n    key_block = prf_tls_12(")], "dev_tls_12_keys: truthiness written `!= 0`"),
+    ("tlexport/key_derivator.py", [("    h = hmac.HMAC(pm_secret, mac())\n    h.update(a1)\n    a2 = h.finalize()\n\n    h = hmac.HMAC(pm_secret, mac())\n    h.update(a1 + seed)\n    p1 = h.finalize()\n", "    h = hmac.HMAC(pm_secret, mac())\n    h.update(a1 + seed)\n    p1 = h.finalize()\n\n    h = hmac.HMAC(pm_secret, mac())\n    h.update(a1)\n    a2 = h.finalize()\n")], "gen_master_secret_tls_12: two independent blocks swapped"),
+    ("tlexport/quic/quic_output_builder.py", [("            if frame.src_packet.ts == ts and frame.src_packet.isserver == isserver:", "            if frame.src_packet.isserver == isserver and frame.src_packet.ts == ts:")], "QUICOutputbuilder.build: operands of `and` swapped"),
+    ("tlexport/output_builder.py", [("        record_len = len(decrypted)\n        packet_count = len(ts)\n", "        packet_count = len(ts)\n        record_len = len(decrypted)\n", 0)], "build_server_packet: two independent statements swapped"),
+    ("tlexport/decryptor.py", [("    for i in range(len(a)):", "    for i in range(0, len(a)):")], "Dec.byte_xor: explicit range start"),
+    ("tlexport/decryptor.py", [("            self.server_key = self.server_application_key\n            self.server_iv = self.server_application_iv\n", "            self.server_iv = self.server_application_iv\n            self.server_key = self.server_application_key\n")], "update_keys: two independent statements swapped"),
+    ("tlexport/quic/quic_tls_parser.py", [("        if len(record) < 6:\n            return\n", "        if 6 > len(record):\n            return\n")], "handle_encrypted_extensions: comparison turned around"),
+    ("tlexport/session.py", [("                metadata = []\n                record_len = packet_data[index + 3: index + 5]", "                record_len = packet_data[index + 3: index + 5]\n                metadata = []", 0)],
+     "extract_server_frame: two independent statements swapped"),
+    ("tlexport/session.py", [("        if self.server_cipher_change and isserver and self.can_decrypt:", "        if isserver and self.server_cipher_change and self.can_decrypt:")], "handle_handshake_finished: operands of `and` reordered"),
+    ("tlexport/session.py", [("                if len(record.binary) > 0:\n                    self.handle_alert(record.binary[0])", "                if len(record.binary) != 0:\n                    self.handle_alert(record.binary[0])")], "handle_tls_record: `len(\u2026) > 0` written `len(\u2026) != 0`"),
+    ("tlexport/session.py", [("            length = int.from_bytes(buffer[1:4], 'big')", "            length = int.from_bytes(buffer[1:4], byteorder='big')")], "handle_decrypted_tls_13_handshake_record: byteorder given by keyword"),
 ]
 
 
@@ -137,8 +244,11 @@ def group_of(what):
              "decode_variable_length_int": ["Varint", "Frames", "QuicDissect2"],
              "get_variable_length_int_length": ["Varint", "Frames", "QuicDissect2"],
              "byte_xor": ["QuicDissect2"], "remove_header_protection": ["QuicDissect2"], "extract_quic_packet": ["QuicDissect2"], "get_full_packet_number": ["Pn"], "set_largest_packet_number": ["Pn"], "check_key_epoch": ["QuicSess"],
-             "packet_isserver": ["QuicSess"], "matches_session_dgram": ["QuicSess"], "handle_alert": ["TlsSess"],
-             "handle_tls_client_hello": ["TlsSess"], "server hello": ["TlsSess"], "set_client_and_server_ports": ["Ports"],
+             "packet_isserver": ["QuicSess"], "matches_session_dgram": ["QuicSess"], "handle_alert": ["TlsSess", "TlsSess2"],
+             "handle_tls_client_hello": ["TlsSess", "TlsSess2"], "server hello": ["TlsSess", "TlsSess2"],
+             **{f: ["TlsSess2"] for f in ("handle_handshake_finished", "handle_tls_handshake_record", "handle_tls_server_hello",
+                                          "handle_decrypted_tls_13_handshake_record", "handle_tls_13_application_record",
+                                          "handle_tls_application_record", "handle_tls_record", "get_tls_records", "TlsRecord")}, "set_client_and_server_ports": ["Ports"],
              "matches_session": ["Demux"], "run": ["Demux"], "OutputBuilder": ["Ports"], "QUICOutputbuilder": ["Ports"],
              "Session.handle_packet": ["Reasm"], "extract_server_buf": ["Reasm"], "extract_client_buf": ["Reasm"],
              "PACKET_TYPE_MAP": ["Pn"], "set_packet_number_spaces": ["Pn"]}
@@ -148,6 +258,20 @@ def group_of(what):
         return ["Checksum"]
     if fn in ("parse_frames", "frame_type") or fn.endswith("Frame"):
         return ["Frames"]
+    if fn in ("prf_tls_12", "prf_tls_10_11", "prf_ssl_30", "gen_master_secret_tls_12", "dev_tls_12_keys", "dev_tls_10_11_keys", "dev_ssl_30_keys",
+              "dev_tls_13_keys", "make_info", "dev_initial_keys", "key_update", "dev_quic_keys"):
+        return ["KeySched"]
+    if fn in ("QUICOutputbuilder.build", "build_server_packet", "build_client_packet", "build_ack_handshake", "OutputBuilder.build"):
+        return ["Builders"]
+    if fn in ("Dec.byte_xor", "get_cipher_type", "update_keys", "decrypt_tls13_aead", "decrypt_tls13_stream_cipher", "decrypt_tls12_aead",
+              "decrypt_tls12_chacha20", "Decryptor.decrypt"):
+        return ["Decrypt"]
+    if fn in ("get_quic_transport_parameters", "get_extensions", "handle_client_hello", "handle_server_hello", "handle_encrypted_extensions", "handle_record"):
+        return ["QuicTls"]
+    if fn in ("extract_server_frame", "extract_client_frame"):
+        return ["Reasm2"]
+    if fn in ("extract_server_buf", "extract_client_buf") and "next_seq" in what:
+        return ["Reasm", "Reasm2"]
     if fn == "handle_quic_packet":
         return ["QuicDissect"] if "long header read" in what else ["Demux"]
     return table[fn]
@@ -202,7 +326,12 @@ def edit(root, file, pairs):
     text = open(path).read()
     for p in pairs:
         old, new = p[0], p[1]
-        if len(p) == 3:
+        if len(p) == 3 and isinstance(p[2], int):
+            # the text occurs several times (extract_server_buf / extract_client_buf are copies): the p[2]-th occurrence
+            parts = text.split(old)
+            assert len(parts) > p[2] + 1, (file, old, len(parts) - 1)
+            text2 = old.join(parts[:p[2] + 1]) + new + old.join(parts[p[2] + 1:])
+        elif len(p) == 3:
             text2 = re.sub(old, new, text)
             assert text2 != text, (file, old)
         else:
@@ -213,7 +342,10 @@ def edit(root, file, pairs):
     open(path, "w").write(text)
 
 
-def mutation_test():
+def mutation_test(only=None):
+    """`only`: a set of groups — run just the mutations / rewrites that concern one of them (`--groups=A,B`)"""
+    muts = [m for m in MUTATIONS if only is None or set(group_of(m[3])) & only]
+    rews = [r for r in REWRITES if only is None or set(group_of(r[2])) & only]
     # the scratch copy is a worktree of the commit the tree under test (`TLX_REPO`, default /repo) stands at
     base = os.path.realpath(fw.REPO)
     head = subprocess.run(["git", "-C", base, "rev-parse", "HEAD"], check=True, capture_output=True, text=True).stdout.strip()
@@ -225,9 +357,9 @@ def mutation_test():
         st, det, failed = build_props(SCRATCH)
         print(f"  unmodified copy: {st}")
         ok &= st == "proved"
-        for file, old, new, what in MUTATIONS:
+        for file, old, new, what, *nth in muts:
             t0 = time.time()
-            edit(SCRATCH, file, [(old, new)])
+            edit(SCRATCH, file, [(old, new, *nth)])
             st, det, failed = build_props(SCRATCH)
             subprocess.run(["git", "-C", SCRATCH, "checkout", "--", file], check=True)
             caught = st != "proved"
@@ -241,7 +373,7 @@ def mutation_test():
             print(f"  MUTATION {'caught' if caught else 'MISSED'} [{st}] groups failing: {sorted(failed)} "
                   f"{'(only its own)' if scoped else 'SCOPE VIOLATED, expected ' + str(sorted(expected))} {what}: "
                   f"{'; '.join(str(d)[:120] for d in det[:3])}  ({time.time() - t0:.1f} s)")
-        for file, pairs, what in REWRITES:
+        for file, pairs, what in rews:
             t0 = time.time()
             edit(SCRATCH, file, pairs)
             st, det, failed = build_props(SCRATCH)
@@ -289,7 +421,8 @@ def main():
           f"required: {len(translate.THEOREMS)}  translated definitions: {len(translate.SPECS)}  ({t1 - t0:.1f} s)")
     for p in ctx.proof_problems[:10]:
         print("  PROOF-PROBLEM", json.dumps(p)[:600])
-    st = translate.selftest(n=int(os.environ.get("TR_SELFTEST_N", "60")), seed=ctx.seed)
+    st = (translate.selftest(n=int(os.environ.get("TR_SELFTEST_N", "60")), seed=ctx.seed) if "--no-cpython" not in sys.argv
+          else {"cases": 0, "functions": 0, "mismatches": [], "refused": 0})
     print(f"translator vs CPython: {st['cases']} cases over {st['functions']} functions, {len(st['mismatches'])} mismatches; "
           f"{st['refused']} sources outside the subset refused ({time.time() - t1:.1f} s)")
     for m in st["mismatches"][:5]:
@@ -298,7 +431,8 @@ def main():
     if "--no-mutations" not in sys.argv:
         t2 = time.time()
         print("mutation test (scratch worktree of /repo):")
-        mok, rows = mutation_test()
+        only = next((set(a.split("=", 1)[1].split(",")) for a in sys.argv[1:] if a.startswith("--groups=")), None)
+        mok, rows = mutation_test(only)
         n_mut = sum(1 for r in rows if r["kind"] == "mutation")
         n_caught = sum(1 for r in rows if r["kind"] == "mutation" and r["outcome"] != "proved")
         n_scoped = sum(1 for r in rows if r["kind"] == "mutation" and r.get("scoped"))
